@@ -44,7 +44,7 @@ REQUIRED_BUCKETS = {"quick": ["op:call_kernel", "op:call_Fq", "op:direct", "op:s
                               "toggle:magnetic", "repeat_identical", "big_then_small", "empty_or_one_point_mesh",
                               "python_model", "composite_model", "q_shares_one_axis_with_previous",
                               "q_shares_first_point_with_previous", "reff_mode_on_then_off", "lane:asan",
-                              "op:other_precision", "op:keyword2d", "op:keyword1d", "op:direct2d"]}
+                              "op:other_precision", "op:keyword2d", "op:keyword1d", "op:direct2d", "op:redisperse"]}
 REQUIRED_BUCKETS["thorough"] = REQUIRED_BUCKETS["quick"]
 
 HERE = os.path.dirname(os.path.abspath(__file__))
@@ -260,6 +260,14 @@ def requests():
         array={"par": "radius", "values": [30.0, 38.5, 44.0, 51.25, 60.0], "weights": [0.7, 1.9, 3.3, 2.1, 0.6]})
     add("cylinder/sasview-array", model="cylinder", q=Q3, via="sasview", pars=cyl,
         array={"par": "length", "values": [250.0, 300.0, 333.0, 410.0], "weights": [1.0, 3.0, 3.0, 1.7]})
+    # requests whose values agree to six significant digits and differ beyond
+    add("sphere/pd-r50", model="sphere", q=Q3, pars=dict(sph, radius=50.0, radius_pd=0.1, radius_pd_n=9))
+    add("sphere/pd-r50eps", model="sphere", q=Q3, pars=dict(sph, radius=50.00002, radius_pd=0.1, radius_pd_n=9))
+    add("sphere/pd-w01eps", model="sphere", q=Q3, pars=dict(sph, radius=50.0, radius_pd=0.1000004, radius_pd_n=9))
+    add("sphere/sasview-r50", model="sphere", q=Q3, via="sasview", pars=dict(sph, radius=50.0))
+    add("sphere/sasview-r50eps", model="sphere", q=Q3, via="sasview", pars=dict(sph, radius=50.00002))
+    add("sphere/sasview-rect", model="sphere", q=Q3, via="sasview",
+        pars=dict(sph, **{"radius.width": 0.15, "radius.npts": 12, "radius.nsigmas": 1.7, "radius.type": "rectangle"}))
     psv = {"radius": 40.0, "sld": 1.0, "sld_solvent": 6.0, "scale": 1.0, "background": 0.01, "volfraction": 0.2,
            "radius_effective": 62.0}
     add("sph@hs/sasview-mode1", model="sphere@hardsphere", q=Q3, via="sasview", pars=dict(psv, radius_effective_mode=1))
@@ -566,6 +574,9 @@ def gen_history(rng, reqs, h):
             ["eval", "cplug/sasview"], ["eval", "sphere/sasview-array"], ["eval", "sphere/sasview-array"],
             ["eval", "sphere/sasview"], ["eval", "sphere/sasview-array"], ["eval", "cylinder/sasview-array"],
             ["eval", "cylinder/sasview-array"]]
+    ops += [["redisperse", "sphere/sasview-rect"], ["eval", "sphere/sasview"]]
+    ops += [["eval", "sphere/pd-r50"], ["eval", "sphere/pd-r50eps"], ["eval", "sphere/pd-w01eps"], ["eval", "sphere/pd-r50"],
+            ["eval", "sphere/sasview-r50"], ["eval", "sphere/sasview-r50eps"], ["eval", "sphere/sasview-r50"]]
     ops += [["eval", "sph@hs/sasview-mode1"], ["eval", "sph@hs/sasview-mode1-parts"], ["eval", "sph@hs/sasview-mode0"],
             ["eval", "sph@hs/sasview-mode1-parts"], ["eval", "sph@hs/sasview-mode1"]]
     # someone in this process evaluates a model in single precision in between (sascomp -single!); requests whose
@@ -707,6 +718,20 @@ def run_history(case, rec):
             st.direct = {k: v for k, v in st.direct.items() if k[0] != arg}
             st.sasview.pop(arg, None)
             after_release = True
+        elif op == "redisperse":
+            # on the object that has just been evaluated, only the distribution object of one parameter is replaced
+            # (set_dispersion is the last thing done to the object) and the same q is evaluated again
+            from sasmodels import weights as sasweights
+            req = reqs[arg]
+            got0 = evaluate(st, reqs["sphere/sasview"])
+            m = st.sasview[req["model"]]
+            disp = sasweights.RectangleDispersion(int(req["pars"]["radius.npts"]), float(req["pars"]["radius.width"]),
+                                                  float(req["pars"]["radius.nsigmas"]))
+            m.set_dispersion("radius", disp)
+            got1 = to_bytes(m.evalDistribution(np.array(req["q"], float)))
+            rec.check("same_bytes_as_fresh_process", got0 == table["sphere/sasview"] and got1 == table[arg],
+                      {"step": step, "request": arg, "op": "set_dispersion with another distribution object, then the same q again",
+                       "before": _floats(got0), "after_set_dispersion": _floats(got1), "fresh": _floats(table[arg])})
         elif op == "other_precision":
             from sasmodels import core as sascore, direct_model
             m_ = sascore.load_model(arg, dtype="single", platform="dll")
